@@ -76,6 +76,13 @@ func (fv *FnVC) mapGet(st *State, t types.Type, m, k string) (Val, string) {
 	v := z
 	v.T = fv.def("mget", ms.vsort, ite(present, "(select "+fv.mapVals(st, ms, m)+" "+k+")", z.T))
 	fv.assumeWF(st, v)
+	if v.K == KIface && fv.boundDepth == 0 && canonType(ms.vt) == modPath+".Object" {
+		// input assumption (entry state only): values held in map[string]Object are non-nil Objects
+		hi := fv.heapInfoFor("Mval:"+ms.key, ms.valSort())
+		hd := fv.heapInfoFor("Mdom:"+ms.key, ms.domSort())
+		fv.assume("true", implies("(select (select "+hd.name+"_0 "+m+") "+k+")", not(eq("(itag (select (select "+hi.name+"_0 "+m+") "+k+"))", "0"))))
+		fv.note("assumed on the entry state: values of map[string]Object containers are non-nil Objects")
+	}
 	return v, present
 }
 
